@@ -184,7 +184,7 @@ func (nal *NewsArtList) Read(p []byte) (int, error) {
 	n := copy(p, out[nal.readOffset:])
 	nal.readOffset += n
 
-	return n, io.EOF
+	return n, nil
 }
 
 type NewsFlavorList struct {
